@@ -1,2 +1,376 @@
-"""sib rules."""
-RULES = {}
+"""SIB - sibling implementations (sync / async twins) must agree (DESIGN 4.6)."""
+from __future__ import annotations
+
+import ast
+import copy
+from typing import Dict, List, Optional, Tuple
+
+from ..ctx import Ctx, arg_for_param, dotted, names_in
+from ..loader import FuncInfo, iter_own_nodes, own_walk
+from ..report import RuleResult, Undecided, norm_src
+from .ref import pkg_funcs
+
+RENAME = {
+    "sync_execute": "EXECUTE", "async_execute": "EXECUTE",
+    "DAGExecution": "EXECUTION", "AsyncDAGExecution": "EXECUTION",
+    "wait_for_finished_nodes": "WAIT_HELPER", "wait_for_finished_nodes_async": "WAIT_HELPER",
+    "DAG": "DAGCLS", "AsyncDAG": "DAGCLS",
+}
+
+
+class _Norm(ast.NodeTransformer):
+    """Erase what legitimately differs between twins: await, logging, docstrings, the names of the twins themselves,
+    'asyncio.wait' vs 'wait', and the names of local variables (alpha-renaming by first occurrence)."""
+
+    def __init__(self, params: List[str]):
+        self.names: Dict[str, str] = {}
+        self.params = set(params)
+
+    def visit_Await(self, node: ast.Await):
+        return self.visit(node.value)
+
+    def visit_Expr(self, node: ast.Expr):
+        v = node.value
+        if isinstance(v, ast.Constant) and isinstance(v.value, str):
+            return None
+        if isinstance(v, ast.Call) and (dotted(v.func) or "").startswith("logger."):
+            return None
+        if isinstance(v, ast.Await):
+            inner = v.value
+            if isinstance(inner, ast.Call) and (dotted(inner.func) or "").startswith("logger."):
+                return None
+        return self.generic_visit(node)
+
+    def visit_Return(self, node: ast.Return):
+        if node.value is None:
+            return None
+        return self.generic_visit(node)
+
+    def visit_Name(self, node: ast.Name):
+        if node.id in RENAME:
+            return ast.copy_location(ast.Name(id=RENAME[node.id], ctx=node.ctx), node)
+        return node
+
+    def visit_Attribute(self, node: ast.Attribute):
+        d = dotted(node)
+        if d == "asyncio.wait":
+            return ast.copy_location(ast.Name(id="wait", ctx=ast.Load()), node)
+        return self.generic_visit(node)
+
+    def visit_Constant(self, node: ast.Constant):
+        if isinstance(node.value, str):
+            return ast.copy_location(ast.Constant(value="<str>"), node)
+        return node
+
+    def visit_JoinedStr(self, node: ast.JoinedStr):
+        return ast.copy_location(ast.Constant(value="<str>"), node)
+
+
+def _normalise(stmts: List[ast.stmt], params: List[str]) -> List[str]:
+    out = []
+    n = _Norm(params)
+    for s in stmts:
+        s2 = n.visit(copy.deepcopy(s))
+        if s2 is None:
+            continue
+        ast.fix_missing_locations(s2)
+        out.append(ast.unparse(s2))
+    return out
+
+
+def _alpha(lines: List[str], f: FuncInfo) -> List[str]:
+    """Alpha-rename local (assigned) names by order of first occurrence."""
+    text = "\n".join(lines)
+    try:
+        tree = ast.parse(text)
+    except SyntaxError:
+        return lines
+    locals_: List[str] = []
+    for n in ast.walk(tree):
+        if isinstance(n, ast.Name) and isinstance(n.ctx, ast.Store) and n.id not in locals_:
+            locals_.append(n.id)
+    mp = {}
+    for n in ast.walk(tree):
+        if isinstance(n, ast.Name) and n.id in locals_:
+            mp.setdefault(n.id, f"v{len(mp)}")
+    for n in ast.walk(tree):
+        if isinstance(n, ast.Name) and n.id in mp:
+            n.id = mp[n.id]
+    return [ast.unparse(s) for s in tree.body]
+
+
+def _summary(f: FuncInfo, stmts: Optional[List[ast.stmt]] = None) -> List[str]:
+    a = f.node.args
+    params = [p.arg for p in a.posonlyargs + a.args + a.kwonlyargs]
+    body = stmts if stmts is not None else f.node.body
+    return _alpha(_normalise(body, params), f)
+
+
+def _signature(f: FuncInfo) -> str:
+    a = f.node.args
+    parts = [p.arg + (":" + norm_src(p.annotation) if p.annotation is not None else "") for p in a.posonlyargs + a.args]
+    parts += ["*" + a.vararg.arg] if a.vararg else []
+    parts += [p.arg for p in a.kwonlyargs]
+    parts += ["**" + a.kwarg.arg] if a.kwarg else []
+    defaults = [norm_src(d) for d in a.defaults]
+    s = ",".join(parts) + "|" + ",".join(defaults)
+    for k, v in RENAME.items():
+        s = s.replace(k, v)
+    return s.replace("asyncio.Future", "Future").replace("'", '"')
+
+
+def _compare(r: RuleResult, what: str, fa: FuncInfo, fb: FuncInfo, sa: List[str], sb: List[str]) -> None:
+    ok = sa == sb
+    r.ob(ok, {"pair": what, "statements compared": len(sa), "equal": ok})
+    if not ok:
+        diff = None
+        for i in range(max(len(sa), len(sb))):
+            x = sa[i] if i < len(sa) else "<missing>"
+            y = sb[i] if i < len(sb) else "<missing>"
+            if x != y:
+                diff = {"sync": x[:300], "async": y[:300]}
+                break
+        r.violate(f"{what}: sync and async twins differ", fa.loc(),
+                  "the two flavours must have the same effects (calls with the same arguments, writes to the same fields under the "
+                  "same guards, same returns) once await/logging/twin names are erased", diff)
+
+
+def _pair(ctx: Ctx, ca: str, cb: str, name: str) -> Tuple[FuncInfo, FuncInfo]:
+    fa, fb = ctx.own_method(ca, name), ctx.own_method(cb, name)
+    if fa is None or fb is None:
+        raise Undecided(f"twin methods {ca}.{name} / {cb}.{name} not found")
+    return fa, fb
+
+
+def sib_dag(ctx: Ctx) -> RuleResult:
+    r = RuleResult("SIB-DAG")
+    for name in ("executor", "setup", "run_subgraph"):
+        fa, fb = _pair(ctx, "DAG", "AsyncDAG", name)
+        _compare(r, f"DAG.{name} / AsyncDAG.{name}", fa, fb, _summary(fa), _summary(fb))
+        oks = _signature(fa) == _signature(fb)
+        r.ob(oks, {"signature": name, "equal": oks})
+        if not oks:
+            r.violate(f"DAG.{name} / AsyncDAG.{name}: signatures differ", fa.loc(), "", {"sync": _signature(fa), "async": _signature(fb)})
+    # __call__: the run tail (after the description branch / the keyword-argument refusal)
+    fa, fb = _pair(ctx, "DAG", "AsyncDAG", "__call__")
+
+    def tail(f: FuncInfo) -> List[ast.stmt]:
+        body = [s for s in f.node.body if not (isinstance(s, ast.Expr) and isinstance(s.value, ast.Constant))]
+        # drop leading statements up to and including the last top-level `if`
+        idx = max([i for i, s in enumerate(body) if isinstance(s, ast.If)], default=-1)
+        return body[idx + 1:]
+
+    _compare(r, "DAG.__call__ / AsyncDAG.__call__ (execution tail)", fa, fb, _summary(fa, tail(fa)), _summary(fb, tail(fb)))
+    # both refuse keyword arguments outside a description
+    for f in (fa, fb):
+        kw = f.node.args.kwarg.arg if f.node.args.kwarg else None
+        refuses = any(isinstance(n, ast.If) and kw in names_in(n.test) and any(isinstance(x, ast.Raise) for x in ast.walk(n))
+                      for n in f.node.body)
+        r.ob(refuses, {f"{f.short} refuses keyword arguments": refuses})
+    return r
+
+
+def sib_exec(ctx: Ctx) -> RuleResult:
+    r = RuleResult("SIB-EXEC")
+    for name in ("setup", "__call__"):
+        fa, fb = _pair(ctx, "DAGExecution", "AsyncDAGExecution", name)
+        _compare(r, f"DAGExecution.{name} / AsyncDAGExecution.{name}", fa, fb, _summary(fa), _summary(fb))
+    return r
+
+
+def sib_wait(ctx: Ctx) -> RuleResult:
+    from .sch import model
+
+    r = RuleResult("SIB-WAIT")
+    m = model(ctx)
+    hs = sorted(m.helpers.values(), key=lambda h: h.kind)
+    r.require(len(hs) == 2 and {h.kind for h in hs} == {"async", "conc"}, "expected one wait helper per future kind")
+    a, b = hs[1].fn, hs[0].fn  # conc, async
+    _compare(r, f"{a.name} / {b.name}", a, b, _summary(a), _summary(b))
+    oks = _signature(a) == _signature(b)
+    r.ob(oks, {"signatures equal": oks})
+    return r
+
+
+def sib_drive(ctx: Ctx) -> RuleResult:
+    from .sch import model
+
+    r = RuleResult("SIB-DRIVE")
+    m = model(ctx)
+    drivers = [f for f in pkg_funcs(ctx) if f.cls is None and not f.is_async and any(q == m.fn.qualname for _, q in ctx.calls_in(f))]
+    r.require(len(drivers) == 1, f"synchronous driver of the scheduler coroutine: found {[d.short for d in drivers]}")
+    d = drivers[0]
+    body = [s for s in d.node.body if not (isinstance(s, ast.Expr) and isinstance(s.value, ast.Constant))]
+    ok = len(body) == 1 and isinstance(body[0], ast.Return) and isinstance(body[0].value, ast.Call) \
+        and (dotted(body[0].value.func) or "") in ("asyncio.run",) and len(body[0].value.args) == 1 \
+        and isinstance(body[0].value.args[0], ast.Call)
+    r.ob(ok, {"driver": norm_src(body[0])[:120] if body else None})
+    if not ok:
+        raise Undecided(f"{d.short}: not of the form 'return asyncio.run(<scheduler>(...))'")
+    inner = body[0].value.args[0]
+    sp = [p.arg for p in m.fn.node.args.args + m.fn.node.args.kwonlyargs]
+    dp = [p.arg for p in d.node.args.args + d.node.args.kwonlyargs]
+    for p in sp:
+        a = arg_for_param(m.fn.node, inner, p)
+        okp = a is not None and dotted(a) == p and p in dp
+        r.ob(okp, {"forwards": p, "as": norm_src(a) if a is not None else None})
+        if not okp:
+            r.violate(f"{d.short}: parameter '{p}' is not forwarded unchanged to the scheduler coroutine", d.loc(inner),
+                      "the synchronous flavour must drive the very same coroutine with the same four arguments", norm_src(inner))
+    return r
+
+
+PARALLEL = ("target_nodes", "exclude_nodes", "root_nodes")
+
+
+def sib_fwd(ctx: Ctx) -> RuleResult:
+    """Parallel-parameter forwarding: where the callee takes the three selection lists and the caller holds them, all are passed."""
+    r = RuleResult("SIB-FWD")
+    n = 0
+    for f in pkg_funcs(ctx):
+        a = f.node.args
+        fparams = {p.arg for p in a.posonlyargs + a.args + a.kwonlyargs}
+        holds_self = set()
+        if f.cls is not None:
+            flds = ctx.P.all_fields(f.cls)
+            holds_self = {p for p in PARALLEL if p in flds}
+        for call, q in ctx.calls_in(f):
+            callee = ctx.P.funcs.get(q) if q in ctx.P.funcs else None
+            if q in ctx.P.classes:
+                c = ctx.P.classes[q]
+                cfields = ctx.P.all_fields(c)
+                cparams = set(cfields)
+                callee_node = None
+            elif callee is not None:
+                ca = callee.node.args
+                cparams = {p.arg for p in ca.posonlyargs + ca.args + ca.kwonlyargs}
+                callee_node = callee.node
+            else:
+                continue
+            if not set(PARALLEL) <= cparams:
+                continue
+            held = {p for p in PARALLEL if p in fparams} | holds_self
+            if not held:
+                continue
+            n += 1
+            passed = {}
+            for p in PARALLEL:
+                av = next((k.value for k in call.keywords if k.arg == p), None)
+                if av is None and callee_node is not None:
+                    av = arg_for_param(callee_node, call, p, skip_self=callee.cls is not None and isinstance(call.func, ast.Attribute))
+                passed[p] = av
+            missing = [p for p in PARALLEL if p in held and passed[p] is None]
+            # values known to be None on this path need not be forwarded
+            if missing:
+                from .ref import _if_chains
+
+                chain = _if_chains(f.node)
+                st = next((s for s in iter_own_nodes(f.node) if isinstance(s, (ast.Assign, ast.AnnAssign, ast.Expr, ast.Return))
+                           and any(call is x for x in ast.walk(s)) and id(s) in chain), None)
+                tests = [norm_src(t) for t, v in (chain.get(id(st), ()) if st is not None else ())]
+                none_known = set()
+                for s in iter_own_nodes(f.node):
+                    if isinstance(s, ast.If) and any(isinstance(b, ast.Raise) for b in s.body) and st is not None and s.lineno < st.lineno:
+                        for p in PARALLEL:
+                            if f"self.{p} is not None" in norm_src(s.test) or f"{p} is not None" in norm_src(s.test):
+                                none_known.add(p)
+                missing = [p for p in missing if p not in none_known]
+            callee_name = callee.short if callee is not None else q.split(".")[-1]
+            r.ob(not missing, {"call": norm_src(call)[:100], "in": f.short, "forwards": sorted(p for p in PARALLEL if passed[p] is not None)})
+            if missing:
+                r.violate(f"{f.short}: selection parameter(s) {missing} not forwarded to {callee_name}", f.loc(call),
+                          "the caller holds the three selection lists and the callee accepts them, but not all are passed: the part of "
+                          "the selection that is dropped is silently ignored", norm_src(call))
+            # forwarded under the right name
+            for p in PARALLEL:
+                av = passed[p]
+                if av is not None and p in held:
+                    okn = dotted(av) in (p, f"self.{p}")
+                    if not okn and dotted(av) in [x for x in PARALLEL] + [f"self.{x}" for x in PARALLEL]:
+                        r.violate(f"{f.short}: selection parameter '{p}' receives '{norm_src(av)}'", f.loc(call), "crossed selection lists", norm_src(call))
+    r.require(n >= 5, f"only {n} call sites with the three selection parameters found")
+    return r
+
+
+def sib_fwd_sched(ctx: Ctx) -> RuleResult:
+    """Every entry into the scheduler passes all four arguments, the bound being the DAG's public max_concurrency field."""
+    from .sch import model
+
+    r = RuleResult("SIB-FWD-SCHED")
+    m = model(ctx)
+    sp = [p.arg for p in m.fn.node.args.args + m.fn.node.args.kwonlyargs]
+    targets = {m.fn.qualname} | {f.qualname for f in pkg_funcs(ctx) if f.cls is None and any(q == m.fn.qualname for _, q in ctx.calls_in(f))}
+    base = ctx.P.classes[ctx.cls_q("BaseDAG")]
+    n = 0
+    for f in pkg_funcs(ctx):
+        if f.qualname in targets:
+            continue
+        for call, q in ctx.calls_in(f):
+            if q not in targets:
+                continue
+            n += 1
+            callee = ctx.P.funcs[q]
+            for p in sp:
+                a = arg_for_param(callee.node, call, p)
+                r.ob(a is not None, {"entry": f.short, "passes": p, "as": norm_src(a) if a is not None else None})
+                if a is None:
+                    r.violate(f"{f.short}: scheduler entered without '{p}'", f.loc(call), "", norm_src(call))
+                elif p == m.bound_name:
+                    okb = isinstance(a, ast.Attribute) and dotted(a.value) == "self" and a.attr in base.fields
+                    if not okb:
+                        r.violate(f"{f.short}: the scheduler's bound is '{norm_src(a)}', not the DAG's max_concurrency field", f.loc(call),
+                                  "the limit configured on the DAG (constructor, config_from_dict, attribute) must be the one the "
+                                  "scheduler enforces; a private copy taken at construction ignores later re-configuration", norm_src(a))
+    r.require(n >= 4, f"only {n} entries into the scheduler")
+    # the field is the one re-configuration writes
+    cf = ctx.method("BaseDAG", "config_from_dict")
+    wr = [x for x in iter_own_nodes(cf.node) if isinstance(x, ast.Assign) and norm_src(x.targets[0]) == f"self.{m.bound_name}"]
+    r.ob(len(wr) == 1, {"config_from_dict writes": f"self.{m.bound_name}"})
+    return r
+
+
+BLOCKING_EXT = ("ext:concurrent.futures.wait", "ext:time.sleep", "ext:concurrent.futures.as_completed")
+
+
+def sib_block(ctx: Ctx) -> RuleResult:
+    """Blocking primitives reachable from the scheduler coroutine."""
+    from .sch import model
+
+    r = RuleResult("SIB-BLOCK")
+    m = model(ctx)
+    r.require(m.fn.is_async, "the scheduler is not a coroutine function")
+    seen = set()
+
+    def blocking_in(f: FuncInfo) -> List[Tuple[ast.Call, str]]:
+        out = []
+        for call, q in ctx.calls_in(f):
+            if q in BLOCKING_EXT:
+                out.append((call, q[4:]))
+            elif q and q.startswith("ext:") and q.endswith(".acquire"):
+                out.append((call, q[4:]))
+        return out
+
+    for call, q in ctx.calls_in(m.fn):
+        if q in BLOCKING_EXT:
+            r.ob(False)
+            r.violate(f"{m.fn.short}: blocking primitive {q[4:]} called in the coroutine", m.fn.loc(call),
+                      "the event loop cannot serve other coroutines while the scheduler blocks", norm_src(call))
+        if q in ctx.P.funcs and not ctx.P.funcs[q].is_async:
+            g = ctx.P.funcs[q]
+            for c2, what in blocking_in(g):
+                key = (g.qualname, what)
+                if key in seen:
+                    continue
+                seen.add(key)
+                r.ob(False, {"coroutine": m.fn.short, "calls": g.short, "which blocks on": what})
+                r.violate(f"scheduler coroutine -> {g.name}: {what} blocks the event loop", g.loc(c2),
+                          "while thread futures are waited for with a blocking primitive, async-thread nodes that finish cannot be "
+                          "observed and other coroutines of the loop are not served (documented limitation: use async-thread for all "
+                          "nodes of an AsyncDAG)", norm_src(c2))
+    n_await = sum(1 for n in iter_own_nodes(m.fn.node) if isinstance(n, ast.Await))
+    r.ob(n_await >= 1, {"await points in the scheduler": n_await})
+    return r
+
+
+RULES = {"SIB-DAG": sib_dag, "SIB-EXEC": sib_exec, "SIB-WAIT": sib_wait, "SIB-DRIVE": sib_drive, "SIB-FWD": sib_fwd,
+         "SIB-FWD-SCHED": sib_fwd_sched, "SIB-BLOCK": sib_block}
